@@ -407,7 +407,7 @@ fn container_cases(ctx: &mut Ctx) {
         run_cont(ctx, idx, u, init, ops);
     }
     // ---- generated histories
-    let n = ctx.n(700, 20000);
+    let n = ctx.n(3000, 60000);
     for _ in 0..n {
         let Some(idx) = ctx.begin() else { continue };
         let mut rng = Rng::for_case(ctx.seed, 11, idx as u64);
@@ -1318,7 +1318,7 @@ fn sm_cases(ctx: &mut Ctx) {
         }
     }
     // ---- generated
-    let n = ctx.n(900, 25000);
+    let n = ctx.n(3000, 60000);
     for _ in 0..n {
         let Some(idx) = ctx.begin() else { continue };
         let mut rng = Rng::for_case(ctx.seed, 1111, idx as u64);
@@ -1548,7 +1548,7 @@ fn run_cf(ctx: &mut Ctx, idx: usize, cfg: Vec<(String, Feat)>, tr: Vec<(String, 
 }
 
 fn cf_cases(ctx: &mut Ctx) {
-    let n = ctx.n(300, 8000);
+    let n = ctx.n(1000, 20000);
     for _ in 0..n {
         let Some(idx) = ctx.begin() else { continue };
         let mut rng = Rng::for_case(ctx.seed, 111111, idx as u64);
